@@ -376,6 +376,7 @@ where
             let a = kstar as f64 / steps as f64;
             acc[x][y] = a;
             rep.distinct(("boundary", kstar));
+            rep.distinct_in("decision boundary positions (k* of 2^53 or 2^24)", kstar);
             let r = decide(lp[x], lp[y], lq[x][y], lq[y][x], F::of(0.5)).ratio;
             let ideal = if r.is_nan() { 0.0 } else { r.exp().min(1.0) };
             let t = ideal * (r.abs().min(1e3) + 2.0) * 8.0 * F::eps() + 2.0 / steps as f64;
